@@ -31,7 +31,11 @@ func genC11(x *Ctx) *c11Scen {
 	sc.Filters = tp.G(2)
 	perm := tp.Perm(len(c11Roots))
 	rid := 0
-	tp.Repeat(2, 5, 600, func(i int) {
+	maxSvcs, moreSvcs := 5, 600
+	if tp.Chance(80) {
+		maxSvcs, moreSvcs = 11, 900 // many services: more mux patterns and more candidates than any small fixed capacity
+	}
+	tp.Repeat(2, maxSvcs, moreSvcs, func(i int) {
 		sp := SvcSpec{ID: i, Root: c11Roots[perm[i]], Dynamic: true}
 		// distinct (method, path) pairs: the same path may carry several methods
 		pairs := tp.Perm(2 * len(c11Subs))
